@@ -123,7 +123,9 @@ func toFlags(opts conv.Options) (flags uint64) {
 	if opts.WriteOptionalField {
 		flags |= types.F_WRITE_OPTIONAL
 	}
-	if opts.ReadHttpValueFallback {
+	// NOTICE: trace-back hands unset fields over to the http-mapping handler, it makes no sense without http-mapping
+	// (native would neither check required fields nor write default ones)
+	if opts.ReadHttpValueFallback && opts.EnableHttpMapping {
 		flags |= types.F_TRACE_BACK
 	}
 	return
